@@ -4,6 +4,7 @@ CONSTANTS
   MaxT = 2
   Types = {"f", "h"}
   Lows = {TRUE, FALSE}
+  Stales = {0}
   MaxOps = 6
   EmitMode = "none"
 VIEW View
